@@ -215,6 +215,28 @@ def _shape_table():
         start = lo + 3
         return [start + k * step for k in range(5)]
 
+    @shape("bitflags_zero")
+    def _(r, lo, hi, signed, bits):
+        # single-bit values plus zero with one lower bit unused: max == 1 << (n - 1) although 0 is a member
+        # (round 5, V03b: a "flag set" fast path indexing by trailing_zeros)
+        return [0, 1, 2, 8]
+
+    @shape("bitflags_zero6")
+    def _(r, lo, hi, signed, bits):
+        return [0, 1, 2, 4, 16, 32]
+
+    @shape("bitflags_full")
+    def _(r, lo, hi, signed, bits):
+        n = min(bits - (2 if signed else 1), 40)
+        return [1 << k for k in range(n)]
+
+    @shape("bitflags_signbit")
+    def _(r, lo, hi, signed, bits):
+        # the sign bit of the repr (or of i64 for the 128-bit and wider-than-i64 reprs) as one more "flag"
+        if not signed:
+            return None
+        return [max(lo, -(1 << 63)), 1, 2, 4]
+
     @shape("many_runs_40")
     def _(r, lo, hi, signed, bits):
         # ~40 runs of uneven length (more than any plausible "many runs" threshold), ~100 variants
